@@ -403,7 +403,15 @@ def _g_cov(rng, tier):
         g = gens.reals(rng, (n, 2), -2.0, 2.0, special=False)
         if n >= 2 and rng.random() < 0.2:
             g[1] = g[0]                                  # coincident mesh points
-        yield {"scale": rng.choice([0.3, 1.0, 2.0, rng.uniform(0.1, 3.0)]), "pixel_points": g}
+        scale = rng.choice([0.3, 1.0, 2.0, rng.uniform(0.1, 3.0)])
+        if n >= 2 and rng.random() < 0.4:
+            # a pair of points 4 .. 9 scale lengths apart: covariances of 3e-4 .. 3e-18, small but not zero (a cut-off on the
+            # separation must show)
+            # (the FARTHEST pair, so that no other pair is far enough for exp() to underflow to exactly 0 in floating point)
+            d = max(float(np.hypot(*(g[i] - g[j]))) for i in range(n) for j in range(n))
+            if d > 0:
+                scale = d / rng.choice([4.0, 5.5, 6.0, 7.0, 9.0])
+        yield {"scale": scale, "pixel_points": g}
 
 
 def _split_tables(rng, p, final=True, full=0.0):
